@@ -874,6 +874,8 @@ class CallMixin:
                 r = h(self, st, recv, name, args)
                 if r is not None:
                     return [(st, r)]
+            if name == "join":
+                return [(st, fresh(STR, "joined"))]       # text built for a message: an unconstrained string
             if name in ("startswith", "endswith"):
                 a = args[0]
                 pats = a.items if isinstance(a, PyTuple) else (a,)
